@@ -152,6 +152,22 @@ fn run_seq<C: Codec>(case: &Value, out: &mut Out) {
                 { let mut e = base::<C>(case, "size", "ref", &m, None); tag(&mut e); e["d"] = json!(o.size()); out.ev(e); }
                 bracket(out);
             }
+            "obsz" => {
+                // light observation: is_zero(), degree(), size(), one evaluation - used around single writes that flip the zero-ness
+                let m = Polynomial::<C::T>::new(mv.clone()); let o = &obj;
+                let tag = |e: &mut Value| { e["step"] = json!(k); };
+                for _ in 0..2 {
+                    { let mut e = base::<C>(case, "is_zero", "ref", &m, None); tag(&mut e);
+                      match guarded(|| o.is_zero()) { Ok(b) => e["b"] = json!(b), Err(_) => { e["panic"] = json!(true); e["b"] = json!(false); } } e["intact"] = json!(same::<C>(o, &m)); out.ev(e); }
+                    { let mut e = base::<C>(case, "degree", "ref", &m, None); tag(&mut e);
+                      match guarded(|| o.degree()) { Ok(Ok(d)) => { e["ok"] = json!(true); e["d"] = json!(d); } Ok(Err(_)) => { e["ok"] = json!(false); e["d"] = json!(-1); }
+                          Err(_) => { e["panic"] = json!(true); e["ok"] = json!(false); e["d"] = json!(-1); } } out.ev(e); }
+                    { let mut e = base::<C>(case, "size", "ref", &m, None); tag(&mut e); e["d"] = json!(o.size()); out.ev(e); }
+                    if let Some(x) = xs.first() { let xv = C::dec(&x.0, x.1.as_ref());
+                        val_op_live::<C>(case, out, "eval", &m, None, Some(o), &|e| { tag(e); set_sc(e, "x", x); }, &|| o.eval(xv)); }
+                    poly_op_live::<C>(case, out, "trim", "ref", &m, None, None, &tag, &|a, _| { let mut t = a.clone(); t.trim(); t });
+                }
+            }
             other => { eprintln!("TOOL-ERROR unknown poly step {}", other); std::process::exit(2) }
         }
     }
@@ -302,6 +318,24 @@ pub fn gen(tier: &str, seed: u64, out: &mut Out) {
         if cxs { c["pi"] = json!(p0i); c["qi"] = json!(coeffs(&mut rng, (len + rep) % 5 + 1, 9, false)); c["xsi"] = json!([0, 1, -1, 0]); c["ssi"] = json!([1, 0]); }
         push(out, c);
     } } }
+    // (a4) single writes that flip the zero-ness of one object: zero -> non-zero lead -> ... -> zero again (one coefficient at a time) -> non-zero;
+    //      empty -> push; is_zero() / degree() / size() / eval observed (twice) before and after every write
+    for ty in tys { for n in 1..=4usize { for start in ["zero", "nonzero", "empty"] { for wr in ["set", "cset"] { for rep in 0..(if quick { 1 } else { 4 }) {
+        let cxs = ty == "cx";
+        let nz = |rng: &mut StdRng| -> (i64, i64) { loop { let a = rng.gen_range(-3..=3i64); let b = if cxs { rng.gen_range(-3..=3i64) } else { 0 }; if a != 0 || b != 0 { return if cxs && rng.gen_bool(0.3) { (0, if b != 0 { b } else { 1 }) } else { (a, b) }; } } };
+        let mut cur: Vec<(i64, i64)> = match start { "zero" => vec![(0, 0); n], "empty" => vec![], _ => (0..n).map(|_| nz(&mut rng)).collect() };
+        let p0 = cur.clone();
+        let mut steps: Vec<Value> = vec![json!({"op": "obsz"})];
+        if start == "empty" { for _ in 0..n { let v = nz(&mut rng); cur.push(v); steps.push(json!({"op": "push", "v": v.0, "vi": v.1})); steps.push(json!({"op": "obsz"})); } }
+        if start == "zero" { let order: Vec<usize> = if rep % 2 == 0 { (0..n).rev().collect() } else { (0..n).collect() };
+            for i in order { let v = nz(&mut rng); cur[i] = v; steps.push(json!({"op": wr, "i": i, "v": v.0, "vi": v.1})); steps.push(json!({"op": "obsz"})); } }
+        for i in 0..cur.len() { cur[i] = (0, 0); steps.push(json!({"op": wr, "i": i, "v": 0, "vi": 0})); steps.push(json!({"op": "obsz"})); }
+        if !cur.is_empty() { let i = rng.gen_range(0..cur.len()); let v = nz(&mut rng); cur[i] = v; steps.push(json!({"op": if wr == "set" { "cset" } else { "set" }, "i": i, "v": v.0, "vi": v.1})); steps.push(json!({"op": "obsz"}));
+            cur[i] = (0, 0); steps.push(json!({"op": "set", "i": i, "v": 0, "vi": 0})); steps.push(json!({"op": "obsz"})); }
+        let mut c = json!({"ty": ty, "bat": "seq", "form": "ref", "p": p0.iter().map(|c| c.0).collect::<Vec<i64>>(), "q": [1], "xs": [2], "ss": [], "beyond": 0, "steps": steps});
+        if cxs { c["pi"] = json!(p0.iter().map(|c| c.1).collect::<Vec<i64>>()); c["qi"] = json!([0]); c["xsi"] = json!([1]); c["ssi"] = json!([]); }
+        push(out, c);
+    } } } } }
     // (b) rational coefficients and scalars (Polynomial<Rat>), degree <= 4
     for _ in 0..(if quick { 40 } else { 600 }) {
         let (lp, lq) = (rng.gen_range(0..=5usize), rng.gen_range(0..=5usize));
